@@ -16,6 +16,8 @@ pub struct ScriptCfg {
     pub continue_max: bool,
     /// also jump into function knots (abuse; C04 only)
     pub jump_functions: bool,
+    /// evaluate_function on knots and tunnels too (abuse; C04 only)
+    pub eval_any_knot: bool,
 }
 
 pub fn rand_val(rng: &mut Rng) -> Val {
@@ -62,6 +64,12 @@ pub fn gen_script(rng: &mut Rng, prog: &Program, cfg: &ScriptCfg) -> Vec<Op> {
                 let args = (0..nargs).map(|_| rand_val(rng)).collect();
                 ops.push(Op::Jump { path: t, reset: rng.chance(1, 2), args });
             }
+        }
+        if cfg.evals && cfg.eval_any_knot && rng.chance(1, 8) && !info.knots.is_empty() {
+            let f = rng.pick(&info.knots).clone();
+            let nargs = rng.below(2);
+            let args = (0..nargs).map(|_| rand_val(rng)).collect();
+            ops.push(Op::Eval { name: f, args });
         }
         if cfg.evals && rng.chance(1, 6) && !info.functions.is_empty() {
             let f = rng.pick(&info.functions).clone();
